@@ -633,7 +633,11 @@ class SlotNode(BaseNode):
             return context
         elif registry_settings.context_behavior == ContextBehavior.ISOLATED:
             outer_context = component_ctx.outer_context
-            return outer_context if outer_context is not None else Context()
+            # NOTE: All fills of a component share the same `outer_context`. Each fill is rendered with its own
+            # copy, so that what we add for one fill (slot data, default slot, ...) is not visible in another
+            # fill of the same component that is rendered while the first one is still being rendered
+            # (e.g. via `{{ default_var }}` -> slot's default content -> another slot -> another fill).
+            return copy(outer_context) if outer_context is not None else Context()
         else:
             raise ValueError(f"Unknown value for context_behavior: '{registry_settings.context_behavior}'")
 
